@@ -12,7 +12,7 @@ ALL_SEQ_OPS = {"ctopic", "gtopic", "dtopic", "ltopics", "ltsubs", "csub", "gsub"
 PROPS = {
     "C01": dict(module="Deltio.Props.C01", p1=True, p6=True, no_oracle={"namerace"}, conc=[("mix", 120, 5000), ("cancel", 60, 2000), ("namerace", 200, 5000), ("bigpub", 10, 150)], trace_kinds={"post", "publish", "publish.fanout", "pull", "ack", "modify", "expire", "end"}, seq=[("general", 150, 6000, 40), ("data", 150, 6000, 50)], pure=[],
                 relevant={"pub", "pull", "sread", "stats", "sopen"}),
-    "C02": dict(module="Deltio.Props.C02", conc=[("mix", 120, 5000), ("abandonpull", 80, 2000)], trace_kinds={"ack"}, seq=[("data", 250, 10000, 50)], pure=["tracker", "ackids"],
+    "C02": dict(module="Deltio.Props.C02", conc=[("mix", 120, 5000), ("abandonpull", 80, 2000)], trace_kinds={"ack", "expire"}, seq=[("data", 250, 10000, 50), ("futureack", 150, 5000, 40)], pure=["tracker", "ackids"],
                 relevant={"ack", "ssend", "pull", "sread", "stats"}),
     "C03": dict(module="Deltio.Props.C03", conc=[("mix", 120, 5000), ("cancel", 80, 3000), ("abandonpull", 60, 2000)], trace_kinds={"pull", "expire", "modify", "ack"}, seq=[("data", 250, 10000, 50), ("batches", 40, 1500, 40), ("bigmsg", 1, 6, 0)], pure=["tracker"],
                 relevant={"pull", "sread"}),
